@@ -215,7 +215,7 @@ static void cv_case(const cfg_t *c, const call_t *k, int delta_choice) {
       if (!(d <= 4 * DEPS * scale) && (d > worst || d != d)) { worst = d; badc = j; badi = i; }
     }
     snprintf(key, sizeof key, "resid-col|%s|%s", fn, (c->ny > 1 && c->nlv > 1) ? "ny>1,nlv>1" : "ny=1-or-nlv=1");
-    vx_check(badc < 0, key, "%s ny=%d nlv=%d: residual[%d][%d]=%.17g but prediction-observed(col %d mod ny)=%.17g", al, c->ny, c->nlv, badi, badc,
+    vx_check(badc < 0, key, "%s ny=%d nlv=%d: residual[%d][%d]=%.17g but prediction minus observed column (col mod ny) = %.17g", al, c->ny, c->nlv, badi, badc,
              badc >= 0 ? res->data[badi][badc] : 0.0, badc >= 0 ? pred->data[badi][badc] - Y->data[badi][badc % c->ny] : 0.0);
   }
 
@@ -353,13 +353,13 @@ static int min_class(const cfg_t *c) { return c->n / c->ncls; }
 
 static void mode_loo(void) {
   static const int NQ[] = {6, 7, 9, 12}, NT[] = {6, 7, 9, 12, 20, 30};
-  cfg_t c; choose_learner(&c, 3);
   int T = vx_thorough();
-  c.n = T ? NT[vx_choose("n", 6)] : NQ[vx_choose("n", 4)];
+  int n = T ? NT[vx_choose("n", 6)] : NQ[vx_choose("n", 4)];
   int tc = vx_choose("threads", T ? 5 : 4);
-  int nthreads = tc == 0 ? 1 : tc == 1 ? 2 : tc == 2 ? 3 : tc == 3 ? c.n + 1 : 8;
-  c.fam = vx_choose("fam", T ? 2 : 1);
+  int nthreads = tc == 0 ? 1 : tc == 1 ? 2 : tc == 2 ? 3 : tc == 3 ? n + 1 : 8;
   int dl = vx_choose("delta", 2);
+  cfg_t c; choose_learner(&c, 3); c.n = n;
+  c.fam = vx_choose("fam", T ? 2 : 1);
   vx_require(c.n - 1 >= c.p + 2);
   if (c.algo == A_LDA) vx_require(min_class(&c) >= 3 && c.n - 2 - c.ncls >= c.p);
   call_t k = {S_LOO, nthreads, 0, 1, NULL};
@@ -367,14 +367,14 @@ static void mode_loo(void) {
 }
 
 static void mode_kfold(void) {
-  cfg_t c; choose_learner(&c, 2);
   int T = vx_thorough();
-  c.n = T ? 6 + vx_choose("n-6", 2) : 6;
-  int nlab = c.n == 7 ? 4 : 3;
+  int n = T ? 6 + vx_choose("n-6", 2) : 6;
+  int nlab = n == 7 ? 4 : 3;
+  static int lab[NMAX]; int cnt[8] = {0};
+  for (int i = 0; i < n; i++) { lab[i] = vx_choose("label", nlab); cnt[lab[i]]++; }
   int tc = vx_choose("threads", 3), nthreads = tc == 0 ? 1 : tc == 1 ? 2 : 4;
   int dl = vx_choose("delta", 2);
-  static int lab[NMAX]; int cnt[8] = {0};
-  for (int i = 0; i < c.n; i++) { lab[i] = vx_choose("label", nlab); cnt[lab[i]]++; }
+  cfg_t c; choose_learner(&c, 2); c.n = n;
   /* the statement's refit is undefined when a training set cannot carry the model */
   for (int g = 0; g < nlab; g++) if (cnt[g]) vx_require(c.n - cnt[g] >= c.p + 2);
   call_t k = {S_KFOLD, nthreads, 0, 1, lab};
@@ -384,11 +384,11 @@ static void mode_kfold(void) {
 static void mode_boot(void) {
   static const int NQ[] = {6, 8, 9}, NT[] = {6, 8, 9, 12, 15};
   static const int IT[] = {1, 2, 3, 4, 6, 12};
-  cfg_t c; choose_learner(&c, 3);
   int T = vx_thorough();
-  c.n = T ? NT[vx_choose("n", 5)] : NQ[vx_choose("n", 3)];
-  int g = 1 + vx_choose("groups-1", c.n);
+  int n = T ? NT[vx_choose("n", 5)] : NQ[vx_choose("n", 3)];
+  int g = 1 + vx_choose("groups-1", n);
   int it = IT[vx_choose("iterations", 6)];
+  cfg_t c; choose_learner(&c, 3); c.n = n;
   c.fam = vx_choose("fam", T ? 2 : 1);
   int dl = c.algo == A_LDA ? vx_choose("delta", 2) : 0;
   int t = (c.n + g - 1) / g;
@@ -469,7 +469,7 @@ int main(int argc, char **argv) {
   vg_seed(getenv("VERIF_SEED") ? atol(getenv("VERIF_SEED")) : 0);
   vx_describe("alphabet", "helpers: nobj 1..30 x groups 1..nobj x seeds 0..7[63], testsize .1...9; LOO x {PLS nlv<=2[3] ny<=2[3] scaling, MLR p<=3[6] ny<=3, LDA 2-3 classes} x n {6,7,9,12[,20,30]} x threads {1,2,3,n+1[,8]}; KFoldCV x {PLS,MLR} x every label vector in {0,1,2}^6 [and {0..3}^7] x threads {1,2,4}; Bootstrap x {PLS,MLR,LDA} x n {6,8,9[,12,15]} x groups 1..n x iterations {1,2,3,4,6,12}, 1 thread; each followed by n re-runs with one response changed");
   vx_describe("oracle", "reported value = (mean over sweeps of) public-API refit on the other folds (allowance 1e3*eps*n*kappa^2*scale, kappa of the training design by long-double SVD); own-response change leaves own prediction bit-identical; folds observed at PLS/MLR/LDA entry points are disjoint, exhaustive partitions; influence-matrix reconstruction of the bootstrap partition; residual = prediction - observed[col mod ny]");
-  vx_set_shard_depth(4);
+  vx_set_shard_depth(5);
   vx_expect_outcomes(500);
   return vx_main(argc, argv, "C05", body);
 }
